@@ -79,7 +79,7 @@ func mkAugParam(kind string, rng *rand.Rand, n int) augParam {
 		p.want = strconv.FormatFloat(float64(f), 'g', -1, 32)
 		p.literal = fmt.Sprintf("float32(%s)", strconv.FormatFloat(float64(f), 'g', -1, 32))
 	case "float64":
-		f := []float64{0, 1, -2.5, 2.5, 1.7976931348623157e308, 1e-300}[rng.Intn(6)]
+		f := []float64{0, 1, -2.5, 2.5, 1.7976931348623157e308, 1e-300, 3.141592653589793, 0.1, 1.0 / 3, 1e300, 16777217, 5e-324}[rng.Intn(12)]
 		p.words = []uint64{math.Float64bits(f)}
 		p.want = strconv.FormatFloat(f, 'g', -1, 64)
 		p.literal = fmt.Sprintf("float64(%s)", p.want)
@@ -113,13 +113,24 @@ func mkAugParam(kind string, rng *rand.Rand, n int) augParam {
 	default: // integers
 		bits, signed := sizedInt(kind)
 		var v int64
-		switch rng.Intn(5) {
+		switch rng.Intn(6) {
 		case 0:
 			v = 0
 		case 1:
 			v = 1
 		case 2:
 			v = 42
+		case 5: // the boundaries of the narrower widths: a wider kind does not wrap there
+			if bits == 64 {
+				v = []int64{127, 128, 255, 256, 32767, 32768, 65535, 65536, 2147483647, 2147483648, 3000000000, 4294967295, 4294967296, -128, -129, -32769, -2147483648, -2147483649}[rng.Intn(18)]
+				if !signed && v < 0 {
+					v = -v
+				}
+			} else if bits == 32 {
+				v = []int64{127, 128, 255, 256, 32767, 32768, 65535, 65536}[rng.Intn(8)]
+			} else {
+				v = 100
+			}
 		case 3: // extreme
 			if signed {
 				v = -1 << (bits - 1)
@@ -496,6 +507,44 @@ func auxAug(res *Result, dir string, idx int, cs interface{}) {
 			}
 		}
 		res.count("aux_truncated_slice_checked", 1)
+	}
+	// a word the runtime could not print ("_"): the typed rendering shows it as not available, inside
+	// an aggregate as well as alone; it never turns into a value, and the words around it keep theirs
+	if idx%50 != 0 {
+		return
+	}
+	src3 := "package main\n\ntype pair struct{ a, b int }\n\nfunc hold(p pair, n int) {\n\tpanic(\"x\")\n}\n\nfunc arr(a [3]int64, ok bool) {\n\tpanic(\"x\")\n}\n\nfunc lone(n int, m uint8) {\n\tpanic(\"x\")\n}\n"
+	_ = os.WriteFile(filepath.Join(dir, "toolarge.go"), []byte(src3), 0o644)
+	file3 := filepath.ToSlash(filepath.Join(dir, "toolarge.go"))
+	dump3 := fmt.Sprintf("goroutine 1 [running]:\nmain.hold({0x11, _}, 0x5)\n\t%s:6 +0x1d\nmain.arr({_, 0x7, _}, 0x1)\n\t%s:10 +0x1d\nmain.lone(_, 0x9)\n\t%s:14 +0x1d\n", file3, file3, file3)
+	s3, pan3 := scanWith(dump3, &stack.Opts{LocalGOROOT: runtime.GOROOT(), GuessPaths: true, AnalyzeSources: true})
+	if pan3 == "" && s3 != nil && len(s3.Goroutines) == 1 && len(s3.Goroutines[0].Stack.Calls) == 3 {
+		for ci, w := range []struct {
+			unders int
+			vals   []string
+			second string
+		}{{1, []string{"11"}, "5"}, {2, []string{"7"}, "true"}, {1, nil, "9"}} {
+			pr := s3.Goroutines[0].Stack.Calls[ci].Args.Processed
+			if len(pr) == 0 {
+				continue // not augmented: nothing is claimed
+			}
+			bad := len(pr) != 2 || strings.Count(pr[0], "_") != w.unders || pr[1] != w.second
+			for _, v := range w.vals {
+				bad = bad || len(pr) == 0 || !strings.Contains(pr[0], v)
+			}
+			// digits other than the printed words' would be invented values
+			if !bad {
+				rest := pr[0]
+				for _, v := range append([]string{"0x", "int64", "3"}, w.vals...) {
+					rest = strings.ReplaceAll(rest, v, "")
+				}
+				bad = strings.ContainsAny(rest, "0123456789")
+			}
+			if bad {
+				res.violation(Finding{Property: "C19", Aspect: "too-large", What: fmt.Sprintf("augment case %d: frame %d of a dump with words the runtime printed as \"_\" is rendered as %q: a word that was not available must stay \"_\" and the others keep their values", idx, ci, pr), Case: cs, Input: []byte(dump3), Observed: pr})
+			}
+			res.count("aux_toolarge_checked", 1)
+		}
 	}
 }
 
